@@ -26,7 +26,12 @@ class Table_Form_Factory(object):
   method is invoked"""
 
   def __init__(self, table_form_tuple, table_form_cls):
-    self._obj = table_form_cls(table_form_tuple.x, table_form_tuple.y)
+    try:
+      self._obj = table_form_cls(table_form_tuple.x, table_form_tuple.y)
+    except Exception as e:
+      # e.g. too few data points, x values that are not strictly increasing
+      raise Table_Form_Exception("Could not create '{}' interpolation from the data given in [Table-Form:{}]: {}".format(
+        table_form_tuple.interpolation, table_form_tuple.name, e))
 
   def __call__(self):
     return self._obj
